@@ -1271,6 +1271,11 @@ def _is_defuse(F, f, b, t):
     adt = f.local_adt(G)
     if not adt:
         return False
+    # only guard types that are NEW with respect to the reference inventory: forgetting a value of a type the library already had
+    # (a server, a receiver, ...) is the leak NO-FORGET exists for
+    from vlib.inline import inventory
+    if any(n.startswith(adt + "::") or n.startswith("<" + adt + " as ") for n in inventory()):
+        return False
     Fn_ = F.nodrop() if hasattr(F, "nodrop") else F
     owned = set()
     for dom in ("fd", "mem"):
